@@ -66,6 +66,11 @@ CHECKS = {
         text="Each observed validation of a (base, variant) family is decided against the construction label; verdict flips under validity-preserving transforms are violations with both documents as witness.",
         note="Trusts the generator's validity-by-construction (type-directed, response keys derived from field+arguments) and the labelled operators; extra errors from other rules on invalid documents are ignored.",
         design="4/C06"),
+    "C19": dict(
+        technique="differential monitor on MaxDepthValidationRule: for every generated document, limit and operation-name filter the verdict is compared with a reference depth computed on the operation IR (refdepth); metamorphic fragment-wrapped copies must not measure shallower",
+        text="Every observed rule call (direct and through validate_ast) is decided by the reference depth: error exactly when depth > limit, nothing and no exception otherwise (incl. flat operations), filter restricted to the named operation.",
+        note="Depth convention from the rule's docstring (its example measures 4). Boolean directive variables are always supplied.",
+        design="4/C19"),
 }
 
 PENDING_REASON = "check not built yet in this session (planned: see DESIGN.md section 4); no claim is made"
